@@ -311,7 +311,7 @@ Section CT.
     | SArrAssign x i a =>
         match name_ty cx G x, ctype cx G i, ctype cx G a with
         | Some (TArr elt, false, acc), Some ti, Some ta =>
-            if integral ti && assignable elt ta && match acc with Some (o, v) => accessible v o (cx_cls cx) | None => true end
+            if integral ti && aset_ok elt ta && match acc with Some (o, v) => accessible v o (cx_cls cx) | None => true end
             then Some G else None
         | _, _, _ => None
         end
